@@ -452,7 +452,7 @@ def r6_crossover_helpers(ctx):
 
 # ------------------------------------------------------------------ R5: the recombination driver
 
-def r5_recombination_driver(ctx, rule="C13.R5"):
+def r5_recombination_driver(ctx, fn=None, rule="C13.R5"):
     """K6 over populations of 0..5 parents and every assignment of {None, Single, Both} to the parent pairs:
     the driver consumes exactly the top population and pushes one new population of unevaluated individuals
     holding, pair by pair, both parents / the single child / both children, plus the unpaired last parent."""
@@ -460,7 +460,7 @@ def r5_recombination_driver(ctx, rule="C13.R5"):
     from absint import Interp, Sym, Agg, TOP, some, NONE, std_oracle, chain
     from collmodel import coll_oracle, Vec, install, heap_get, load
     F = ctx.facts
-    fn = F.fn("mahf::components::recombination::recombination")
+    fn = fn or F.fn("mahf::components::recombination::recombination")
     IND = "mahf::problems::individual::Individual"
     bad = []
     n = 0
@@ -545,14 +545,9 @@ def r5_recombination_driver(ctx, rule="C13.R5"):
             if p.end != "return" or not okk:
                 badfp.append((both, repr(r)))
     ctx.check(not badfp, rule, fp.key, "insert-one-or-both", "from_pair(both=%s) yields %s" % (badfp[0] if badfp else ("", "")), loc=fp.loc())
-    # every Recombination component executes through the driver
+    # (that every Recombination component executes through this driver - or through code that behaves like it - is C13.DRV)
     impls = [f for f in F.all_fns if f.impl_trait == "mahf::components::recombination::Recombination" and f.name == "recombine"]
     ctx.floor(rule, "Recombination implementations", len(impls), 4)
-    for f in impls:
-        ex = F.fn_opt("<%s as mahf::components::Component>::execute" % f.impl_self_adt)
-        r = ex.body.expr_of_local(0) if ex else None
-        good = ex is not None and r[0] == "call" and r[1] == "mahf::components::recombination::recombination" and len(list(ex.body.calls())) == 1
-        ctx.check(good, rule, f.impl_self_adt, "executes-through-driver", "execute() is not exactly recombination(self, problem, state)", loc=(ex or f).loc())
 
 
 def heap_get_path(p, v):
@@ -679,6 +674,16 @@ def draw_oracle(script, rate, extra=None, self_ty=None, strength=0.5):
             return Sym("uniform")
         if k == "rand::distributions::distribution::Distribution::sample":
             return Sym("noise")
+        if k == "rand::rng::Rng::sample" and len(args) == 2:
+            # `rng.sample(distr)`: one draw of what `sample_iter(distr)` yields
+            d_ = load(interp, env, args[1])
+            tag_ = getattr(d_, "tag", "")
+            if tag_ == "bernoulli":
+                return take(interp, [False, True])
+            if tag_ == "uniform":
+                return take(interp, [0.0, 0.25, 1.0])
+            if tag_ == "normal":
+                return Sym("noise")
         if k == "rand::seq::SliceRandom::choose":
             return some(1.0)
         return TOP
